@@ -130,6 +130,16 @@ CHECKS = {
             "every enumerated interleaving of 2 threads is executed with a deterministic scheduler at hook H1, plus free-running threads.",
             "Histories sampled by TLC simulation (depth 6); schedules exhaustive for 2 threads x 3/4 blocks; preemption inside one loop "
             "iteration only by free-running runs; hooks H1/H2 required.", "DESIGN.md §4 C10"),
+    "C02": ("TLA+ spec ZeroFinder.tla (iteration protocol vs arbitrary environment) model-checked by TLC; Trace_ZeroFinder validates "
+            "hook traces (H2) and API-boundary observations of real set_weapon_zero calls",
+            "TLC checks returned => accuracy met, error => not met at the cap, iteration cap, failure keeps the stored zero, store only "
+            "after return, and refutes 'store before search'; real zeroings (all look angles to +-59 deg, 0-2 winds, previously stored "
+            "zeros, unreachable distances) are recorded per iteration and validated: protocol conformance, reachable => returned, returned "
+            "=> the trajectory then fired is within the statement's bound of the sight line at the aim point, failed => stored zero "
+            "bit-identical.",
+            "Shots sampled (seeded); reachability and the miss bound are float predicates of the projection (bound per foot of down-range "
+            "distance over the steps between aim point and sample point); one open known finding (high-arc non-convergence).",
+            "DESIGN.md §4 C02"),
 }
 
 NOT_APPLICABLE = {
